@@ -299,6 +299,11 @@ def syncml_doc(T, lang, cmd, mtype, data_items, meta_in_item=False, with_meta=Tr
     return E("SyncML", [E("SyncBody", [c], 0)], 0)
 
 
+CDATA_END_PAYLOADS = [b"x]]>]]>y", b"]]>]]>", b"]]>]]>]]>", b"x]]]>y", b"]]]>", b"x]]>]y", b"]]>]", b"]]]]>>", b"x]]]]>>y", b"]]>",
+                      b"]]>x", b"x]]>", b"]]>x]]>", b"x]]>y]]>z", b"]]", b"]>", b">]]", b"]]>>", b"]]]]>", b"]]>]]", b"]]>]]>x]]>]]>",
+                      b"]]>\n]]>", b"a]]>]]>b]]>]]>c"]
+
+
 def syncml_shapes(T, rng):
     """list of (lang, root, tagstr)"""
     out = []
@@ -313,6 +318,14 @@ def syncml_shapes(T, rng):
                               [('s', b"A"), ('s', b"B")], [('s', b"A"), ('e', 38), ('s', b"B")], [('o', b"A"), ('o', b"B")]):
                     if rng.chance(1, 3) or (mtype == b"text/x-vcard" and cmd == "Add"):
                         out.append((L, syncml_doc(T, L, cmd, mtype, items, meta_in_item=rng.chance(1, 2)), "syncml-data"))
+        # CDATA end markers in the payload: consecutive / overlapping / at the start / at the end / split over two content items
+        for pay in CDATA_END_PAYLOADS:
+            out.append((L, syncml_doc(T, L, "Add", b"text/x-vcard", [('s', pay)], meta_in_item=rng.chance(1, 2)), "syncml-cdata-end"))
+        for a, b in ((b"x]]", b">y"), (b"x]", b"]>y"), (b"]]>", b"]]>"), (b"x]]>", b"]]>y")):
+            out.append((L, syncml_doc(T, L, "Replace", b"text/x-vcalendar", [('s', a), ('s', b)]), "syncml-cdata-end"))
+        for _ in range(6):
+            pay = b"".join(rng.choice([b"]", b"]]", b">", b"]]>", b"x", b"]]>]]>", b"]]]>"]) for _ in range(rng.range(2, 7)))
+            out.append((L, syncml_doc(T, L, rng.choice(["Add", "Replace"]), b"", [('s', pay)], with_meta=False), "syncml-cdata-end"))
         # no Meta at all: the Add/Replace "vObject" hack
         for cmd in ("Add", "Replace", "Delete"):
             out.append((L, syncml_doc(T, L, cmd, b"", [('s', vcard)], with_meta=False), "syncml-nometa"))
